@@ -6,6 +6,9 @@ import amlgen
 
 H = os.path.join(vlib.ROOT, 'harness/kernel/device/acpi/aml')
 vlib.register_const_dump('kernel', 'device/acpi/aml', os.path.join(H, 'zz_verif_consts_test.go'))
+# the object-pool model Aml/Tree.v (C13) needs its own generated constants
+vlib.register_const_dump('kernel', 'device/acpi/aml', os.path.join(H, 'zz_verif_consts_tree_test.go'),
+                         test='TestVerifDumpConstsTree', tag='aml_tree')
 
 FN = ['parsePkgLength', 'parseNumConstant', 'parseString', 'parseNameString', 'nextOpcode', 'peekNextOpcode',
       'ReadByte', 'UnreadByte', 'DataPtr', 'LastByte']
